@@ -41,6 +41,8 @@ def gen_sm(rng, corp, plain):
         for k in ("ORIGIN", "LABELS", "JACKET", "VERSION", "COMBOS", "PREVIEW"):
             if rng.random() < 0.2:
                 sf[k] = rng.choice(["", "value", "0.000=Song Start", "0.83"])
+        if rng.random() < 0.2:
+            sf["VERSION"] = rng.choice(["0.5", "0.7", "0.69", "0.81", "0.83", "0.9", "1", "beta", " 0.5 "])      # (older / newer than any template's)
         for _ in range(rng.randint(0, 3)):
             sf[cc.rand_key(rng, forbid=("NOTES", "FREEZES", "STOPS", "BPMS", "ATTACKS", "DISPLAYBPM", "TITLE", "BGCHANGES", "ANIMATIONS"), allow_meta=False)] = cc.rand_value(rng, 8) if rng.random() < 0.8 else None
         if rng.random() < 0.15:
